@@ -507,7 +507,49 @@ func c16Edit(t *rapid.T, hist []*c16Model, m *c16Model, nfiles int, o c16Opts, f
 	for tries := 0; len(log) < ne && tries < 4*ne+4; tries++ {
 		ti := rapid.IntRange(0, len(n.Tables)-1).Draw(t, "etable")
 		tb := &n.Tables[ti]
-		switch pick(t, []int{0, 1, 2, 2, 3, 4, 5, 5, 6, 6, 7, 7, 7, 8, 9}, "edit") {
+		switch pick(t, []int{0, 1, 2, 2, 3, 4, 5, 5, 6, 6, 7, 7, 7, 8, 9, 10}, "edit") {
+		case 10: // detach a reference and retype its former target in the same step, both to one new type
+			for k := range tb.Cols {
+				c := tb.Cols[k]
+				if c.FkT == "" || n.colReferenced(tb.Name, c.Name) {
+					continue
+				}
+				pt := n.table(c.FkT)
+				if pt == nil || pt.Name == tb.Name {
+					continue
+				}
+				pc := pt.col(c.FkC)
+				if pc == nil || pc.FkT != "" || pc.Autoinc {
+					continue
+				}
+				// the target must not be referenced by anything else (retyping a referenced key is a listed finding)
+				refs := 0
+				for _, ot := range n.Tables {
+					for _, oc := range ot.Cols {
+						if oc.FkT == pt.Name && oc.FkC == pc.Name {
+							refs++
+						}
+					}
+				}
+				if refs != 1 {
+					continue
+				}
+				nt := c16GenPrim(t, pc.Name)
+				if nt.Typ == pc.Typ && nt.N == pc.N {
+					continue
+				}
+				tmp := *tb
+				tmp.Cols = append([]c16Col(nil), tb.Cols...)
+				tmp.Cols[k] = c16Col{Name: c.Name, Typ: nt.Typ, N: nt.N, PK: c.PK}
+				if gateKeyless && !c16HasPK(&tmp) && !c16HasFK(&tmp) {
+					r.Exclude("C16-create-keyless-trailing-comma")
+					break
+				}
+				pc.Typ, pc.N = nt.Typ, nt.N
+				tb.Cols[k] = tmp.Cols[k]
+				log = append(log, "detach+retype "+tb.Name+"."+c.Name+" and "+pt.Name+"."+pc.Name)
+				break
+			}
 		case 0: // add column (primitive)
 			*fresh++
 			c := c16GenPrim(t, fmt.Sprintf("n%d", *fresh))
